@@ -29,7 +29,12 @@ def _same(a, b):
     return a is b or (type(a) is type(b) and a == b)
 
 
-def _uf(*a, **k):
+NATIVE_UF = {}          # name -> the real function an uninterpreted symbol of the contracts stands for (set by an area, where there is one)
+
+
+def _uf(name, sort, *a):
+    if name in NATIVE_UF:
+        return NATIVE_UF[name](*a)
     raise NotEvaluable("uninterpreted function")
 
 
@@ -37,7 +42,7 @@ HELPERS = dict(
     truthy=bool, isempty=lambda s: len(s) == 0, keys=lambda m: set(m), seq_eq=lambda a, b: list(a) == list(b),
     distinct=lambda l: len(set(l)) == len(list(l)), subset=lambda a, b: set(a) <= set(b), elems=lambda l: set(l), some=lambda x: x,
     nodes=lambda g: set(g) | set(x for v in g.values() for x in v), union=lambda a, b: set(a) | set(b), diff=lambda a, b: set(a) - set(b),
-    disjoint=lambda a, b: not (set(a) & set(b)), store=lambda m, k, v: dict(m, **{}) if False else _store(m, k, v), uf=_uf, __same=_same)
+    disjoint=lambda a, b: not (set(a) & set(b)), INT=None, STR=None, BOOL=None, PY=None, store=lambda m, k, v: dict(m, **{}) if False else _store(m, k, v), uf=_uf, __same=_same)
 
 
 def _store(m, k, v):
@@ -104,7 +109,13 @@ def evaluate(text, env, pre_env, memo, universe):
         return eval(_cache.setdefault(src, compile_clause(src)), dict(HELPERS, **e))
     code = _cache.setdefault(text, compile_clause(text))
     g = dict(HELPERS, **env)
-    g.update(__dom=dom, __old=old)
+
+    def same(a, b):
+        """`is` across the snapshot: the same object (its copy in the snapshot counts as itself), or equal immutable scalars"""
+        if a is b or memo.get(id(a), a) is b or memo.get(id(b), b) is a:
+            return True
+        return type(a) is type(b) and isinstance(a, (int, str, float, bool, bytes, type(None), tuple, frozenset)) and a == b
+    g.update(__dom=dom, __old=old, __same=same)
     try:
         return bool(eval(code, g))
     except NotEvaluable:
@@ -293,7 +304,67 @@ def area_parsr():
             check_call(M + "::Parser._accumulate", lambda: Parser._accumulate(first, r), dict(first=first, rest=r), {}, G)
 
 
-AREAS = {"dr": area_dr, "config": area_config, "blacklist": area_blacklist, "parsr": area_parsr}
+def area_obfuscators():
+    from insights.cleaner.ip import IPv4, IPv6
+    from insights.cleaner.mac import Mac
+    from insights.cleaner.hostname import Hostname
+    from insights.cleaner.keyword import Keyword
+    IP, MAC, HN, KW = "insights/cleaner/ip.py", "insights/cleaner/mac.py", "insights/cleaner/hostname.py", "insights/cleaner/keyword.py"
+    macs = ["52:54:00:aa:bb:0%d" % i for i in range(4)] + ["52:54:00:AA:bb:01"]
+    v6 = ["2001:db8::%x" % i for i in range(1, 5)] + ["2001:DB8::1"]
+    v4 = ["10.0.0.%d" % i for i in range(1, 6)]
+    hosts = ["h%d.corp.test" % i for i in range(4)] + ["node1.corp.test"]
+    _v4 = IPv4()
+    NATIVE_UF.update(ip2int=_v4._ip2int, int2ip=_v4._int2ip)          # the contracts' ip2int / int2ip ARE these two methods (interface contracts)
+    for trial in range(40):
+        m, s6, s4 = Mac(), IPv6(), IPv4()
+        check_call(IP + "::IPv4.__init__", lambda: IPv4.__init__(s4), dict(self=s4), {"Ref_V4": [s4]})
+        fq = rnd.choice(["node1.corp.test", "single", "a.b"])
+        h = Hostname.__new__(Hostname)
+        check_call(HN + "::Hostname.__init__", lambda: Hostname.__init__(h, fq), dict(self=h, fqdn=fq), {"Ref_H": [h], "Str": hosts})
+        for _ in range(12):
+            x = rnd.choice(macs)
+            check_call(MAC + "::Mac._mac2db", lambda: m._mac2db(x), dict(self=m, mac=x), {"Ref_Mac": [m]})
+            y = rnd.choice(v6)
+            check_call(IP + "::IPv6._ip2db", lambda: s6._ip2db(y), dict(self=s6, ip=y), {"Ref_V6": [s6], "Ref_IPv6": [s6]})
+            z = rnd.choice(v4)
+            check_call(IP + "::IPv4._ip2db", lambda: s4._ip2db(z), dict(self=s4, ip=z), {"Ref_V4": [s4]})
+            w = rnd.choice(hosts)
+            check_call(HN + "::Hostname._hn2db", lambda: h._hn2db(w), dict(self=h, hn=w), {"Ref_H": [h], "Str": hosts})
+        check_call(MAC + "::Mac.mapping", lambda: m.mapping(), dict(self=m))
+        check_call(IP + "::IPv6.mapping", lambda: s6.mapping(), dict(self=s6))
+        check_call(IP + "::IPv4.mapping", lambda: s4.mapping(), dict(self=s4))
+        check_call(HN + "::Hostname.mapping", lambda: h.mapping(), dict(self=h))
+
+
+def area_responses():
+    from insights.core import plugins
+    from insights.formats import get_response_of_types
+    P, F = "insights/core/plugins.py", "insights/formats/__init__.py"
+    KEYS = ["skips", "none", "reports", "info", "pass", "fingerprints", "system", "other"]
+    RULES = ["rule", "info", "pass", "none", "fingerprint", "metadata"]
+    for _ in range(600):
+        resp = dict((k, [k]) for k in KEYS if rnd.random() < 0.6)
+        if "system" in resp:
+            resp["system"] = {"metadata": {}} if rnd.random() < 0.5 else {}
+        missing = rnd.random() < 0.5
+        show = rnd.choice([None, [], rnd.sample(RULES, rnd.randint(1, 4))])
+        check_call(F + "::get_response_of_types", lambda: get_response_of_types(resp, missing, show), dict(response=resp, missing=missing, show_rules=show),
+                   {"Str": KEYS})
+    classes = [plugins.make_fail, plugins.make_pass, plugins.make_info, plugins.make_none, plugins.make_fingerprint, plugins.make_metadata]
+    for cls in classes:
+        try:
+            obj = cls("KEY") if cls not in (plugins.make_none, plugins.make_metadata) else cls()
+        except Exception:
+            continue
+        for key in [None, "", "K", 0, 5, ["k"], "a b"]:
+            check_call(P + "::Response.validate_key", lambda: obj.validate_key(key), dict(self=obj, key=key))
+        for kw in [{}, {"a": 1}, {"type": "x"}, {"error_key": "E"}, {"pass_key": "P"}, {"info_key": "I"}, {"fingerprint_key": "F"}, {"type": 1, "a": 2}]:
+            check_call(P + "::Response.validate_kwargs", lambda: obj.validate_kwargs(kw), dict(self=obj, kwargs=kw))
+        check_call(P + "::Response.get_key", lambda: obj.get_key(), dict(self=obj))
+
+
+AREAS = {"responses": area_responses, "obfuscators": area_obfuscators, "dr": area_dr, "config": area_config, "blacklist": area_blacklist, "parsr": area_parsr}
 AREAS[area]()
 print(json.dumps({"ok": True, "area": area, "calls": stats["calls"], "clauses_evaluated": stats["clauses_evaluated"], "clauses_skipped": stats["clauses_skipped"],
                   "functions": sorted(stats["functions"]), "skipped_because": sorted(stats["skipped_examples"])[:12]}))
